@@ -1,15 +1,47 @@
 import sys, os
 sys.path.insert(0, os.path.dirname(os.path.dirname(os.path.abspath(__file__))))
-from vlib import tvcheck, runner
+from vlib import tvcheck, runner, gosymrun, build
 from templates import families
 from checks.c01 import ASSUME
 
+
+def post(rep, templates, results):
+    """L1: layout kernels under gosym (both pointer sizes, result/optional/struct of a type pool)."""
+    hs = [('compiler/internal/mir', 'internal/mir', ['HarnessAlignTo']),
+          ('compiler/internal/codegen/qbe_embeddings', 'internal/codegen/qbe_embeddings', ['HarnessC18Layout'])]
+    for pkg, rel, names in hs:
+        try:
+            rs = gosymrun.run(pkg, names, wall_timeout=600)
+        except Exception as e:
+            rep.inconc(pkg, 'gosym: %s' % e)
+            continue
+        for r in rs:
+            res = r['result']
+            rep.coverage.setdefault('l1_harnesses', []).append({'harness': res['harness'], 'status': res['status'], 'paths': (res.get('stats') or {}).get('paths'),
+                                                                 'asserts_checked': (res.get('stats') or {}).get('asserts_checked')})
+            if res['status'] == 'inconclusive':
+                rep.inconc(res['harness'], '; '.join(res.get('unsupported') or ['?']))
+            seen = set()
+            for v in res.get('violations') or []:
+                if v['msg'] in seen:
+                    continue
+                seen.add(v['msg'])
+                rr = gosymrun.replay(pkg, rel, res['harness'], v['model'])
+                if rr['kind'] not in ('assert', 'panic'):
+                    rep.inconc(res['harness'], 'counterexample did not reproduce natively: %s' % rr)
+                    continue
+                rep.violation('%s: %s' % (res['harness'], v['msg']), '%s with %s; native replay %s' % (v['msg'], v['model'], rr), kind=v['kind'],
+                              replay={'harness': res['harness'], 'model': v['model'], 'native': rr})
+
+
 def main():
     ts = families.c18(runner.tier())
-    rc, _ = tvcheck.run('C18', ts, 'model_checking', ASSUME + ['a template the compiler rejects (T0009/T0028 or any error) satisfies C18 and is only counted'],
-        'Fixed-array templates (index as literal, const, let, branch-reassigned let, loop-carried, parameter; reads and writes; negative forms). The emitted QBE IL is executed symbolically: every access must stay inside the array region (memory-safety obligation) and the function result must equal the reference evaluation that uses the run-time value of the index, for all parameter values; out-of-range executions must end in a panic.',
-        reject_is_violation=False)
+    rep_holder = {}
+    rc, _ = tvcheck.run('C18', ts, 'model_checking', ASSUME + ['L1 layout kernels (alignTo, SizeOf/AlignOf/StructLayout, resultTagOffset) are executed by gosym on a pool of 16 payload types x 2 pointer sizes'],
+        'L2: struct/optional templates, write one component and read every component, neighbour and copy back, decided by the solver on the emitted QBE IL for all values. L1: the layout kernels executed symbolically (gosym) for both pointer sizes: result discriminant and optional flag inside the value and outside the payloads, struct fields aligned/disjoint/covered.',
+        reject_is_violation=False, post=post)
     sys.exit(rc)
+
 
 if __name__ == '__main__':
     main()
